@@ -772,6 +772,11 @@ async fn run_case(ops: &[String], db_path: &str, res: &mut CaseResult) -> Result
                     res.outputs.push("bad-op".into());
                     continue;
                 };
+                if kind == "extern" && stmts.iter().any(|s| matches!(s, Stmt::Table(t) if t.cols.iter().any(|c| c.fk))) {
+                    // REFERENCES columns are kept out of plain-SQL tables (foreign keys are enforced on inserts)
+                    res.outputs.push("bad-op".into());
+                    continue;
+                }
                 if kind == "extern" {
                     used_extern = true;
                     verdict = match real_extern(&node.agent, &stmts).await {
